@@ -226,12 +226,9 @@ where
     T: FromStr + crate::robotics::FromF64,
     T: num_traits::Float,
 {
-    if angle_conversions {
-        return crate::robotics::parse_yaml12_float_angle_converting(s, location, tag);
-    }
     let t = trim_blanks(s);
     let lower = t.to_ascii_lowercase();
-    match lower.as_str() {
+    let plain = match lower.as_str() {
         ".nan" | "+.nan" | "-.nan" => Ok(T::nan()),
         ".inf" | "+.inf" => Ok(T::infinity()),
         "-.inf" => Ok(T::neg_infinity()),
@@ -239,7 +236,16 @@ where
             ty: "floating point",
             location,
         }),
+    };
+    if angle_conversions {
+        // An ordinary float literal keeps exactly the value it has without the extension
+        // (parsed at the target width, not through f64); only a degrees tag changes it.
+        if plain.is_ok() && tag != SfTag::Degrees {
+            return plain;
+        }
+        return crate::robotics::parse_yaml12_float_angle_converting(s, location, tag);
     }
+    plain
 }
 
 #[cfg(not(feature = "robotics"))]
